@@ -159,10 +159,12 @@ PATTERN_SAMPLES = {"^[a-z]+$": "abc", "^x": "xyz", "[0-9]": "a1", "^(a|b)c?$": "
 
 
 def fmt_value(val, rng):
-    if val.get("pattern"):
-        s = PATTERN_SAMPLES.get(val["pattern"])
-    else:
+    if val.get("format"):
         s = FORMAT_SAMPLES.get(val.get("format"))
+        if s is not None and val.get("pattern") and not re.search(val["pattern"], s):
+            return None
+    else:
+        s = PATTERN_SAMPLES.get(val["pattern"])
     if s is None:
         return None
     if "maxlen" in val and len(s) > val["maxlen"]:
